@@ -407,6 +407,17 @@ def r3_emission_order(ctx):
     if not f:
         return
     conts = _buffer_container_types(P)
+    # one buffer: everything a handler emits (packets and self-messages alike) goes through a single FIFO, otherwise the flush cannot
+    # reproduce the emission order between the containers
+    holders = []
+    for k, a in P.adts.items():
+        if k.startswith('des::net::runtime::ctx::'):
+            for v in a.get('variants', []):
+                for fd in v['fields']:
+                    if fd['ty'] in conts:
+                        holders.append('%s.%s' % (k.split('::')[-1], fd['n']))
+    ctx.check(len(holders) == 1, 'single-buffer', 'the handler-local event buffer is a single container (emission order is kept across all kinds of emitted events)',
+              f.where(), holders)
 
     def is_buffer(ty):
         t = re.sub(r"^&\s*('[a-z_]+\s+)?(mut\s+)?", '', ty)
